@@ -612,7 +612,7 @@ class Fragment:
     def iter_drain_filter_map_collect(self, nth=1):
         """X.drain(R).filter(|w| F).map(|w| M).collect()  ->  pop_front loop pushing M for the elements satisfying F.
         R is `..` or `..split`."""
-        rx = re.compile(r'(?P<x>[A-Za-z_]\w*(?:\s*\.\s*[A-Za-z_]\w*)*?)\s*\.drain\((?P<r>\.\.\w*)\)\s*\.filter\(\|(?P<v1>\w+)\|\s*(?P<f>[^)]*?)\)\s*'
+        rx = re.compile(r'(?P<x>[A-Za-z_]\w*(?:\s*\.\s*[A-Za-z_]\w*)*?)\s*\.drain\((?P<r>\.\.\w*)\)\s*\.(?P<ad>filter|take_while)\(\|(?P<v1>\w+)\|\s*(?P<f>[^)]*?)\)\s*'
                         r'\.map\(\|(?P<v2>\w+)\|\s*(?P<m>.*?)\)\s*\.collect\(\)', re.S)
         it = list(rx.finditer(self.text))
         if len(it) < nth:
@@ -623,16 +623,24 @@ class Fragment:
         cond = f"{x}.len() > 0" if rng == '..' else f"__j < {rng[2:]}"
         counter = '' if rng == '..' else ' let mut __j: usize = 0;'
         step = '' if rng == '..' else '                __j += 1;\n'
+        if m.group('ad') == 'take_while':
+            # take_while stops yielding at the first element falsifying F; dropping the Drain still removes the whole range
+            counter += ' let mut __stop: bool = false;'
+            test = f"!__stop && {{ let {m.group('v1')} = &__w; {m.group('f').strip()} }}"
+            orelse = ' else { __stop = true; }'
+        else:
+            test = f"{{ let {m.group('v1')} = &__w; {m.group('f').strip()} }}"
+            orelse = ''
         new = (f"{{ let mut __out = Vec::new();{counter}\n"
                f"            while {cond} {{\n"
                f"                let __w = {x}.pop_front().unwrap();\n"
-               f"                if {{ let {m.group('v1')} = &__w; {m.group('f').strip()} }} {{ let {m.group('v2')} = __w; __out.push({m.group('m').strip()}); }}\n"
+               f"                if {test} {{ let {m.group('v2')} = __w; __out.push({m.group('m').strip()}); }}{orelse}\n"
                f"{step}"
                f"            }}\n"
                f"            /*@drain_end*/\n"
                f"            __out }}")
         self.text = self.text[:m.start()] + new + self.text[m.end():]
-        self.note('V-ITER', 1, '`X.drain(R).filter(|w| F).map(|w| M).collect()` -> loop popping the front, pushing M for elements satisfying F (F, M verbatim)')
+        self.note('V-ITER', 1, '`X.drain(R).filter|take_while(|w| F).map(|w| M).collect()` -> loop popping the whole range from the front, pushing M for the elements the adapter yields (F, M verbatim)')
 
     # --- function-shaped fragments -----------------------------------------------------------
     def fn_body_open(self):
